@@ -106,7 +106,7 @@ static Json::Value gen() {
   Json::Value ticks(Json::arrayValue);
   for (int t = 0; t < nticks; t++) {
     Json::Value tick(Json::objectValue);
-    tick["adv_ms"] = R(1, 6) * 1000;
+    tick["adv_ms"] = R(1, 6) * 1000 + subsecMs();
     Json::Value ops(Json::arrayValue);
     if (t > 0) {
       for (auto& c : cands) {
